@@ -36,17 +36,24 @@ impl RecoveryInfo {
 }
 impl Signature {
 //@fn Signature::from_der_impl
+//@wrapper Signature::from_der @ src/signature/mod.rs = Signature::from_der_impl
 //@fn Signature::from_hex_der_impl
+//@wrapper Signature::from_hex_der @ src/signature/mod.rs = Signature::from_hex_der_impl
 //@fn Signature::to_der_bytes
 //@fn Signature::to_compact_bytes
 //@fn Signature::from_compact_impl
+//@wrapper Signature::from_compact_bytes @ src/signature/mod.rs = Signature::from_compact_impl
 //@fn Signature::get_public_key
+//@wrapper Signature::recover_public_key @ src/signature/mod.rs = Signature::get_public_key
 //@fn Signature::get_public_key_from_digest
+//@wrapper Signature::recover_public_key_from_digest @ src/signature/mod.rs = Signature::get_public_key_from_digest
     #[verifier::external_body] pub fn to_der_hex(&self) -> (r: String) { unimplemented!() }
 }
 impl SighashSignature {
 //@fn SighashSignature::to_bytes_impl
+//@wrapper SighashSignature::to_bytes @ src/transaction/sighash.rs = SighashSignature::to_bytes_impl
 //@fn SighashSignature::from_bytes_impl
+//@wrapper SighashSignature::from_bytes @ src/transaction/sighash.rs = SighashSignature::from_bytes_impl
 }
 // ---- property-level lemmas over the contracts above ----
 // compact header arithmetic: decode(encode(y, x, c)) == (y, x, c) for all eight combinations
